@@ -41,11 +41,11 @@ PROPS = {
         ]),
     'C09': dict(
         witness=[dict(append_to='tonic/src/transport/service/grpc_timeout.rs', module='replay/timeout_witness.rs', crate='tonic', filter='verif_witness_timeout', features=['--features', 'gzip,deflate,zstd']), dict(append_to='tonic/src/request.rs', module='replay/request_witness.rs', crate='tonic', filter='verif_witness_request', features=['--features', 'gzip,deflate,zstd'])],
-        units=['timeout'], level='proof',
+        units=['timeout', 'serverconfig'], level='proof',
         not_covered=[
             'elapsed (virtual) time: that tokio::time::sleep(d) fires after exactly d and the grid of (caller timeout, configured timeout, handler latency) triples - the timer is an assumed primitive (A-tokio-01)',
             'mapping of TimeoutExpired to a CANCELLED "Timeout expired" status goes through dyn Error source chains (Status::from_error / find_status_in_source_chain, RecoverError): not under contract',
-            'Request::set_timeout (duration_to_grpc_timeout(..).parse::<MetadataValue>().unwrap()) and the server wiring of GrpcTimeout are not under contract',
+            'Request::set_timeout (duration_to_grpc_timeout(..).parse::<MetadataValue>().unwrap()) is not under contract; of the server wiring only the Server builder (setters, layer()) is: the hand-over Server.timeout -> MakeSvc.timeout -> GrpcTimeout::new inside serve_internal / MakeSvc::call (async fn, tower builder closures) and tls_config / trace_fn are not',
             'is_ascii_digits (iterator adapter) is a Kani-complete harness of the Kani lane, linked as a callee contract; str::parse::<u64>, str::split_at, Display of integers are assumed std contracts (A-std-parse-01, A-std-str-04, A-fmt-01)',
         ]),
     'C08': dict(
